@@ -125,6 +125,14 @@ func runC02Case(r *Run, bases *baseStates, cc *c02Case) {
 		for i := 0; i < cc.Dups && len(entries) > 0; i++ {
 			aw2.start(li, li.Submit(cloneEntry(entries[rng.Intn(len(entries))]), false))
 		}
+		if len(entries) >= 256 {
+			// a pool larger than one tile (and than any internal batch size):
+			// EVERY entry of it is resubmitted and must be answered with its own leaf
+			for _, e := range entries {
+				aw2.start(li, li.Submit(cloneEntry(e), false))
+			}
+			r.Count("large_pool_full_resubmissions", 1)
+		}
 		// next round: serves resubmissions that were not deduplicated (after a
 		// non-fatal failure), and is where the process dies right after the
 		// acknowledgements of the first round (at a chosen op).
@@ -181,8 +189,8 @@ func TestC02Phases(t *testing.T) {
 	}
 	n := 0
 	for _, start := range starts {
-		for _, pool := range []int{1, 3, 257} {
-			if !thorough() && pool == 257 && start != 255 {
+		for _, pool := range []int{1, 3, 257, 300, 600} {
+			if !thorough() && pool >= 257 && !(start == 255 && pool == 257) && !(start == 0 && pool == 300) && !(start == 256 && pool == 600) {
 				continue
 			}
 			var cases []*c02Case
